@@ -164,11 +164,14 @@ def set_slot(doc, slot, fn):
 
 def _mk(base, slots_payloads, meta, options, collide=False):
     H, T = BASES[base](), BASES[base]()
-    for slot, pay in slots_payloads:
+    # deeper slots first: renaming a map key invalidates the recorded paths of the slots below it
+    for slot, pay in sorted(slots_payloads, key=lambda sp: -len(sp[0][1]) - (0 if sp[0][0] == "key" else 1)):
         set_slot(H, slot, lambda old, pay=pay: old + PAYLOADS[pay])
         set_slot(T, slot, lambda old, pay=pay: old + twin_text(PAYLOADS[pay]))
     out = {"hostile": H, "twin": T, "meta": meta, "options": options, "base": base,
            "slots": [[slot_name(s), pay] for s, pay in slots_payloads]}
+    if len(slots_payloads) > 1:
+        out["raw_slots"] = [[list(s), pay] for s, pay in slots_payloads]
     if collide:
         slot, pay = slots_payloads[0]
         out["collide"] = {"kind": slot[0], "path": slot[1], "hostile_name": slot[2] + PAYLOADS[pay], "twin_name": slot[2] + twin_text(PAYLOADS[pay])}
@@ -459,6 +462,14 @@ def run_case(p):
                 steps += 6
             except ImportError as exc:
                 viol.append({"oracle": "probe-import", "site": "-", "key": key, "detail": str(exc)})
+    if p.get("raw_slots") and viol:
+        # a pair case reports only what neither of its two single-slot cases shows (those are reported, keyed, by the singles)
+        alone = set()
+        for (kind, path, old), pay in p["raw_slots"]:
+            r1 = run_case(_mk(p["base"], [((kind, path, old), pay)], p["meta"], p["options"]))
+            alone |= {(v["oracle"], v["site"]) for v in r1.get("violations", [])}
+            steps += 2
+        viol = [v for v in viol if (v["oracle"], v["site"]) not in alone]
     seen, uniq = set(), []
     for v in viol:
         k = (v["oracle"], v["site"])
